@@ -12,6 +12,7 @@ from .vc_core import model_witness, nice_model
 def run(P, item):
     props = set(item['props']); fl = item['flavour']; pol = item['policy']; n = item['n']; progs = item['progs']; pb = item.get('preempt', 2)
     cfg = Cfg(fl, pol, limit=item.get('limit', True), ttl=item.get('ttl', False), mem=item.get('mem', False), fw=None)
+    cfg.real = (pol == 'TLRU' and cfg.has_ttl)       # TLRU scores with an age factor: decided over the reals (see vc_core.run_step)
     res = dict(paths=0, claims=0, failed=[], classes=set(), funcs=set(), builtins=set())
     I = Interp(P)
 
